@@ -10,6 +10,9 @@ structure SrvIn where
   kind : String
   work : List Time
   hwork : List Time
+  /-- connections whose handler is blocked dialling a black-holed upstream when shutdown begins: work on the
+  tcp listener that never ends by itself (and that closing the inbound connection does not unblock) -/
+  dial : Nat
 
 def parseTime (j : Json) : Except String Time :=
   match j with
@@ -28,15 +31,16 @@ def parseSrv (j : Json) : Except String SrvIn := do
   let kind ← j.getObjValAs? String "kind"
   let work ← parseTimes j "work"
   let hwork ← parseTimes j "hwork"
-  return { kind, work, hwork }
+  let dial := (j.getObjValAs? Nat "dial").toOption.getD 0
+  return { kind, work, hwork, dial }
 
 def toServer (s : SrvIn) : Except String Server :=
   match s.kind with
   | "http" => .ok (.single { kind := .http, work := s.work })
-  | "tcp" => .ok (.single { kind := .tcp, work := s.work })
-  | "sni" => .ok (.single { kind := .tcp, work := s.work })
+  | "tcp" => .ok (.single { kind := .tcp, work := s.work ++ List.replicate s.dial none })
+  | "sni" => .ok (.single { kind := .tcp, work := s.work ++ List.replicate s.dial none })
   | "grpc" => .ok (.single { kind := .grpc, work := s.work })
-  | "inetaf" => .ok (.multi [{ kind := .tcp, work := s.work }, { kind := .http, work := s.hwork }])
+  | "inetaf" => .ok (.multi [{ kind := .tcp, work := s.work ++ List.replicate s.dial none }, { kind := .http, work := s.hwork }])
   | k => .error s!"unknown server kind {k}"
 
 def fateStr : Fate → String
@@ -81,7 +85,8 @@ def specOf (wait : Nat) (srvs : List SrvIn) (impl : Json) : Option Bool := do
   for (s, js) in srvs.zip isrvs.toList do
     let fw ← (strList js "work").toOption
     let fh ← (strList js "hwork").toOption
-    if fw.length != s.work.length || fh.length != s.hwork.length then none
+    let fd := (strList js "dial").toOption.getD []
+    if fw.length != s.work.length || fh.length != s.hwork.length || fd.length != s.dial then none
     for (e, f) in (s.work ++ s.hwork).zip (fw ++ fh) do
       if tle e (some wait) && f != "completed" then ok := false
   return ok
@@ -97,14 +102,16 @@ def shutdownH : Handler := fun inp impl => do
     ("dur", Json.str (durStr (durClass 0 wait ret))),
     ("servers", Json.arr (srvs.map (fun s =>
         let (k1, k2) := leafKinds s
-        Json.mkObj [("work", fatesJson wait k1 s.work), ("hwork", fatesJson wait k2 s.hwork)])).toArray),
+        Json.mkObj [("work", fatesJson wait k1 s.work), ("hwork", fatesJson wait k2 s.hwork),
+                    ("dial", fatesJson wait k1 (List.replicate s.dial none))])).toArray),
     ("accepted", Json.arr (srvs.map (fun _ => Json.bool false)).toArray)]
-  let nwork := srvs.foldl (fun n s => n + s.work.length + s.hwork.length) 0
+  let nwork := srvs.foldl (fun n s => n + s.work.length + s.hwork.length + s.dial) 0
+  let dOpen := srvs.any (fun s => s.dial > 0)
   let kindsWith (p : SrvIn → Bool) := srvs.any p
   let gOpen := kindsWith (fun s => s.kind == "grpc" && beyond wait s.work)
   let tOpen := kindsWith (fun s => (s.kind == "tcp" || s.kind == "sni" || s.kind == "inetaf") && beyond wait s.work)
   let hOpen := kindsWith (fun s => (s.kind == "http" && beyond wait s.work) || (s.kind == "inetaf" && beyond wait s.hwork))
-  let cls := if gOpen then "grpc-open-work" else if tOpen then "tcp-open-work" else if hOpen then "http-open-work"
+  let cls := if dOpen then "tcp-dial-pending" else if gOpen then "grpc-open-work" else if tOpen then "tcp-open-work" else if hOpen then "http-open-work"
              else if nwork > 0 then "short-work-only" else "idle"
   let tag := if srvs.length > 1 then cls ++ "+mix" else cls
   match specOf wait srvs impl with
